@@ -6,6 +6,7 @@ import (
 	"encoding/json"
 	"fmt"
 	"os"
+	"os/exec"
 	"path/filepath"
 	"sort"
 	"strconv"
@@ -177,7 +178,7 @@ func report(e *Engine, results []*funcResult, prop, tier, outDir string, verbose
 		for _, kf := range known {
 			if kf.Kind == "finding" && kf.Property == prop && kf.Obligation == n {
 				isKnown = true
-				fmt.Printf("KNOWN-FINDING: property=%s %s\n", prop, kf.Rest)
+				fmt.Printf("KNOWN-FINDING: %s\n", kf.Rest)
 				knownHit = append(knownHit, n)
 			}
 		}
@@ -212,10 +213,54 @@ func report(e *Engine, results []*funcResult, prop, tier, outDir string, verbose
 			fmt.Printf("VIOLATION property=%s replay=%s%s\n", prop, path, suffix)
 		}
 	}
+	extra := map[string]any{}
+	if isCheck && prop != "" && tier == "thorough" {
+		// (1) runtime cross-check: the replay harness must find no violating scenario on this tree when every obligation holds
+		var fams []map[string]any
+		for _, fam := range replayFamilies[prop] {
+			o := runHarness(e.repo, fam, prop, "")
+			fams = append(fams, map[string]any{"family": fam, "scenarios": o.Tried, "violation": o.Violation, "error": o.Error})
+			if o.Violation != "" && exit == 0 {
+				// the real code violates the property on a concrete input although all obligations were discharged
+				os.MkdirAll(filepath.Join(outDir, "replays"), 0o755)
+				path := filepath.Join(outDir, "replays", prop+"-runtime-oracle-"+fam+".json")
+				b, _ := json.MarshalIndent(map[string]any{"property": prop, "obligation": "runtime-oracle:" + fam, "failing_input": map[string]any{"family": fam, "scenario": o.Failing, "observed_on_real_code": o.Violation}, "failing_input_confirmed": true}, "", " ")
+				os.WriteFile(path, b, 0o644)
+				fmt.Printf("VIOLATION property=%s replay=%s\n", prop, path)
+				exit = 1
+				violations++
+			}
+		}
+		extra["runtime_cross_check"] = fams
+		// (2) must-fail corpus of this property (tests the machinery, not the repository: never affects the verdict)
+		if _, err := os.Stat(filepath.Join(outDir, "tools", "selftest.py")); err == nil && exit == 0 {
+			cmd := exec.Command("python3", filepath.Join(outDir, "tools", "selftest.py"), "--property", prop, "--repo", e.repo)
+			out, _ := cmd.CombinedOutput()
+			lines := strings.Split(strings.TrimSpace(string(out)), "\n")
+			var notOK []string
+			for _, l := range lines {
+				if strings.HasPrefix(l, "MISSED") || strings.HasPrefix(l, "FALSE-ALARM") {
+					notOK = append(notOK, strings.Join(strings.Fields(l)[:2], " "))
+				}
+			}
+			extra["must_fail_corpus"] = map[string]any{"summary": lines[len(lines)-1], "not_ok": notOK}
+			fmt.Printf("must-fail corpus for %s: %s\n", prop, lines[len(lines)-1])
+		}
+	}
 	if isCheck && prop != "" {
+		evidenceExtra = extra
 		writeEvidence(e, outDir, prop, tier, funcs, total, discharged, len(names), covers, paths, bySolver, trusted, assumed, glue, results, violations, knownHit, solverMs, wall)
 	}
 	return exit
+}
+
+var evidenceExtra map[string]any
+
+func mergeMaps(a, b map[string]any) map[string]any {
+	for k, v := range b {
+		a[k] = v
+	}
+	return a
 }
 
 func writeEvidence(e *Engine, outDir, prop, tier string, funcs []string, total, discharged, distinct, covers, paths int, bySolver map[string]int,
@@ -273,6 +318,10 @@ func writeEvidence(e *Engine, outDir, prop, tier string, funcs []string, total, 
 		perFunc[r.Name] = map[string]any{"obligations": len(r.Obligs), "failed": len(r.Failed), "glue_iterations": r.Iter, "seconds": r.Secs, "unverifiable": r.Unsupported}
 	}
 	seed, _ := strconv.Atoi(os.Getenv("VERIF_SEED"))
+	cov := map[string]any{}
+	for k, v := range evidenceExtra {
+		cov[k] = v
+	}
 	ev := map[string]any{
 		"property_id": prop,
 		"tier":        tier,
@@ -280,7 +329,7 @@ func writeEvidence(e *Engine, outDir, prop, tier string, funcs []string, total, 
 		"level":       "proof",
 		"wall_s":      wall,
 		"violations":  violations,
-		"coverage": map[string]any{
+		"coverage": mergeMaps(cov, map[string]any{
 			"obligations":               total,
 			"discharged":                discharged,
 			"distinct_obligation_names": distinct,
@@ -298,7 +347,7 @@ func writeEvidence(e *Engine, outDir, prop, tier string, funcs []string, total, 
 			"package_functions_without_contract": notUnder,
 			"samples":                   samples,
 			"explanation":               "every obligation is generated from go/ssa of /repo's working tree on this run and discharged by SMT; obligations counted per symbolic path",
-		},
+		}),
 		"assumptions": tb,
 	}
 	os.MkdirAll(filepath.Join(outDir, "evidence"), 0o755)
